@@ -547,7 +547,7 @@ package httpserver
 //@   ensures [path_keeps_everything_after_first_slash] hasSlash(key) ==> path == "/" + after(key)
 //@   ensures [no_slash_means_root] !hasSlash(key) ==> path == "/"
 
-//@ unit hide_casketfile frames=on props=C02 filter=`httpserver\.hideCasketfile$`
+//@ unit hide_casketfile frames=on props=C02,C11 filter=`httpserver\.hideCasketfile$`
 //@ // The Casketfile a site was loaded from goes on the site's hide list whenever it lies under the site root, the two paths
 //@ // being compared in absolute form (absOf/absOK ARE filepath.Abs's results): root "." with -conf /srv/site/Casketfile counts.
 //@ spec absOf(p string) string
@@ -569,6 +569,10 @@ package httpserver
 //@   requires cctx != nil && forall(k, 0, len(cfgs()), cfgs()[k] != nil) && forall(k, 0, len(cfgs()), forall(j, 0, k, cfgs()[j] != cfgs()[k]))
 //@   modifies SiteConfig.HiddenFiles, E:string
 //@   ensures [casketfile_under_root_is_hidden] (result == nil && forall(k, 0, len(cfgs()), cfgs()[k].originCasketfile != "")) ==> forall(k, 0, len(cfgs()), under(cfgs()[k]) ==> (len(cfgs()[k].HiddenFiles) == old(len(cfgs()[k].HiddenFiles)) + 1 && lastHidden(cfgs()[k]) == hiddenName(cfgs()[k])))
+//@   // C11 "-validate and a real start agree": this callback only runs on a real start, so it must not refuse what the
+//@   // `root` setup accepted (a root that does not exist yet is accepted there with a warning): the ONLY error is a path
+//@   // that cannot be made absolute
+//@   ensures [fails_for_no_other_reason_than_an_abs_failure] result != nil ==> exists(k, 0, len(cfgs()), !absOK(cfgs()[k].Root) || !absOK(cfgs()[k].originCasketfile))
 //@   ensures [abs_failure_is_reported] (forall(k, 0, len(cfgs()), cfgs()[k].originCasketfile != "") && exists(k, 0, len(cfgs()), !absOK(cfgs()[k].Root) || !absOK(cfgs()[k].originCasketfile))) ==> result != nil
 //@   loop 1 invariant 0 <= #i && #i <= len(ctx.siteConfigs) && ctx == cctx
 //@   loop 1 invariant forall(k, 0, #i, cfgs()[k].originCasketfile != "" && absOK(cfgs()[k].Root) && absOK(cfgs()[k].originCasketfile))
